@@ -22,8 +22,11 @@ Latitude (statement silent -> both behaviours accepted):
  - which exception type refuses a bad definition / remove_elements([]) / a non-class argument (or whether the latter raise);
  - default values of USER classes under reset()/reset_default_parameter_values (the model follows the observation);
  - in a refused multi-key set_default_values call the valid keys may be applied or not;
- - not generated: re-registering a still-registered class under another symbol / with another private flag / with a
-   contradicting equation, definitions whose Class is a built-in class, validate_impedances=False with a contradicting
+ - a class object that was accepted before and comes back with a contradicting equation (after remove_elements / reset /
+   nothing, same or another free symbol) MUST be refused with all views unchanged; what the refusal does to that user
+   class's own attributes is not judged. Redefining a still-registered class consistently (same symbol/flag): either outcome;
+ - not generated: a still-registered class ACCEPTED under a second symbol or with another private flag, definitions whose
+   Class is a built-in class, validate_impedances=False with a contradicting
    equation (the user opted out of the comparison).
 Out of scope (observed, not judged): register_element(ElementDefinition(Class=<a built-in class>, symbol="Rzz", ...)) is accepted and
 renames the built-in for the rest of the process (reset() does not undo it); the property quantifies over user-defined elements.
@@ -43,7 +46,8 @@ from .. import registry_model as rm
 ID = "C15"
 RULE = (
     "histories of 8-20 (thorough: 8-40, single-history interpreters twice that) operations over {register_element x {valid, padded symbol, "
-    "identical re-registration, built-in symbol, taken user symbol, invalid symbol (18 forms), equation contradicting _impedance in re/im/both} x "
+    "identical re-registration, built-in symbol, taken user symbol, invalid symbol (18 forms), equation contradicting _impedance in re/im/both for a new "
+    "class AND for a class object accepted earlier (after remove/reset/nothing, same/other symbol), consistent redefinition of a registered class} x "
     "private in {omitted, True, False} x 7 element templates (incl. a Resistor subclass and a container), remove_elements, reset x 4 flag cells, "
     "set_default_values (kw/positional/mixed, invalid forms) on built-ins incl. the private K/Ky and on user classes, reset_default_parameter_values "
     "(None/class/list), parse_cdc of composed codes, tampering with returned dicts} generated from rng([seed, case]); 25 histories per fresh "
@@ -149,10 +153,14 @@ def finalize(agg):
     inc = []
     need = ["observe", "view:d0p0", "view:d1p1", "probe:registered", "probe:unregistered", "probe:concatenation", "snapshot-compare", "barrier",
             "postreset-registration", "op:register:valid", "op:register:inconsistent", "op:register:dup-builtin", "op:register:dup-user",
-            "op:register:invalid-symbol", "op:remove", "op:reset", "op:set_defaults", "op:reset_defaults", "op:parse", "interpreters:single-history"]
+            "op:register:invalid-symbol", "op:register:reuse-inconsistent", "pattern:reuse-inconsistent", "op:remove", "op:reset", "op:set_defaults", "op:reset_defaults", "op:parse", "interpreters:single-history"]
     for k in need:
         if st.get(k, 0) == 0:
             inc.append("deciding comparison never ran: " + k)
+    for after in ("nothing", "remove", "reset", "unregistered-earlier"):
+        for sk in ("same", "other"):
+            if not any(k.startswith("pattern:reuse-inconsistent:after=%s:symbol=%s:" % (after, sk)) and v > 0 for k, v in st.items()):
+                inc.append("pattern never occurred: accepted class re-registered with a contradicting equation (after=%s, symbol=%s)" % (after, sk))
     if st.get("histories_not_executed_after_dirty_barrier", 0) and not inc:
         pass  # only happens together with a violation, which decides the run
     margin = agg["maxobs"].get("inconsistent_def_inverse_margin_in_allclose_units")
